@@ -273,6 +273,9 @@ func (c *Chunk) addLocked(chunk pb.Chunk) bool {
 	if c.shouldValidate(chunk) {
 		if !td.validator.AddChunk(chunk.Data, chunk.ChunkId) {
 			plog.Warningf("ignored a invalid chunk %s", key)
+			// the stream is corrupted, it must never be finalized
+			c.removeTempDir(chunk)
+			c.reset(key)
 			return false
 		}
 	}
